@@ -250,7 +250,9 @@ def gen_sheet(rng, native=False, bad_rate=0.0, max_tables=3, extras=True, transp
 
 
 FAULT_CELLS = ["", " ", "abc", "**z", "***z", ":z", "k:", None, {"i": 5}, {"f": (2.5).hex()}, {"b": True},
-               {"d": "2020-01-01T00:00:00"}, "1", "0", "-", "NaN", {"o": "date"}, "**z*", "::", "x:y"]
+               {"d": "2020-01-01T00:00:00"}, "1", "0", "-", "NaN", {"o": "date"}, "**z*", "::", "x:y",
+               # timestamps that parse on their own but do not fit a column of ordinary ones
+               "2020-01-01T00:00:00+01:00", "0001-01-01", "2020-01-02 00:00:00.000000001"]
 
 
 def fault(rng, rows, text_only=False):
